@@ -93,6 +93,38 @@ def dominates_ok(fn, a, b):
     return b not in fn.reachable_from(0, avoid=errs | {a}) and b in fn.reachable_from(a)
 
 
+def error_continuations(fn, b):
+    """Where control really goes from an error exit `b`.  In an inlined view an error exit of a spliced helper stores Err
+    in the helper's result place and jumps to the continuation, where the caller examines it (`helper(..)?`); the CFG
+    offers both arms of that `?`, but only the Break arm is feasible.  Returns the feasible successor blocks: the Break
+    arms of the `?` applied to that result, or [b] when `b` is an error exit of the function itself (or no `?` is found)."""
+    import mirflow as MF
+    rl = set(fn.mir.get('ret_locals', [0])) - {0}
+    if not rl:
+        return [b]
+    blk = fn.mir['blocks'][b]
+    t = blk['term']
+    dest = None
+    if t['t'] == 'call' and t['dest']['l'] in rl:
+        dest = t['dest']['l']
+    for st in blk['stmts']:
+        if st['s'] == 'assign' and st['place']['l'] in rl and not st['place']['proj']:
+            dest = st['place']['l']
+    if dest is None:
+        return [b]
+    idx = MF.defs_index(fn)
+    out = []
+    for bb, tt in call_blocks(fn, 'Try::branch'):
+        a = tt['args'][0]
+        if 'l' in a and dest in MF.slice_back(fn, a['l'], idx, through_calls=False)['locals']:
+            sw = fn.mir['blocks'][tt['target']]['term'] if tt.get('target') is not None else None
+            if sw and sw['t'] == 'switch':
+                ee = enum_edges(sw)
+                if '1' in ee:
+                    out.append(ee['1'])
+    return out or [b]
+
+
 def ok_blocks(fn):
     out = set()
     for bi, b in fn.blocks():
